@@ -133,6 +133,10 @@ def run_property(pid, tier, seed, cfg):
         raise
 
 
+def _short(t, n=400):
+    return t if len(t) <= n else t[:n] + f'... ({len(t)} chars, complete in the replay file)'
+
+
 def decide_and_report(pid, tier, seed, cfg, report, scratch):
     from . import witness as witness_mod
     known = [k for k in load_known() if k.get('property') == pid and k.get('status', 'open') == 'open']
@@ -142,7 +146,7 @@ def decide_and_report(pid, tier, seed, cfg, report, scratch):
     violations = []
     known_hit = []
     for o in failed + bfailed:
-        k = next((k for k in known if k['obligation'] == o['id']), None)
+        k = next((k for k in known if k.get('obligation') == o['id']), None)
         if k is not None:
             known_hit.append((o, k))
         else:
@@ -162,11 +166,14 @@ def decide_and_report(pid, tier, seed, cfg, report, scratch):
         # replay grid of the property's operations on the real code -- may still refute the property; it never proves it
         ops = cfg.get('standin_ops', [])
         if ops:
+            grid_known = []
             try:
-                w, cases = witness_mod.standin(pid, ops, REPO, scratch)
+                w, cases = witness_mod.standin(pid, ops, REPO, scratch, known=known, known_hits=grid_known)
             except Exception as e:
                 w, cases = None, 0
                 lines.append(f'  (bounded stand-in could not run: {e!r})')
+            for kw in grid_known:
+                lines.append(f'KNOWN-FINDING: property={pid} grid {kw["op"]} {kw["known"].get("witness", "")} observed={kw.get("observed")} -- {kw["known"].get("what", "")}')
             report['bounded'].append(dict(id=f'standin[{pid}]', bound=f'replay grid of {len(ops)} operations, {cases} cases', status='failed' if w else 'no disagreement',
                                           kind='bounded', fn='bounded stand-in'))
             if w:
@@ -175,7 +182,7 @@ def decide_and_report(pid, tier, seed, cfg, report, scratch):
                     json.dump(dict(property=pid, obligation=f'bounded stand-in (unit undecided): {w["op"]}', counterexample=w, replayed=w.get('replayed'),
                                    verifier_output='; '.join(report['undecided'])[:3000], repo=REPO, bounded=True), f, indent=1)
                 lines.append(f'VIOLATION property={pid} replay={rp}')
-                lines.append(f'  bounded stand-in (the deductive unit is undecided): op {w["op"]} witness={json.dumps(w.get("input"))} observed={w.get("observed")} expected={w.get("expected")}')
+                lines.append(f'  bounded stand-in (the deductive unit is undecided): op {w["op"]} witness={_short(json.dumps(w.get("input")))} observed={w.get("observed")} expected={w.get("expected")}')
                 standin_v.append(dict(id=f'standin[{pid}]:{w["op"]}', status='failed'))
                 exit_code = 1
             else:
@@ -202,28 +209,32 @@ def decide_and_report(pid, tier, seed, cfg, report, scratch):
             json.dump(rec, f, indent=1)
         replays.append(rp)
         lines.append(f'VIOLATION property={pid} replay={rp}{suffix}')
-        lines.append(f'  obligation {o["id"]} failed ({o.get("backend")})' + (f' witness={json.dumps(cex.get("input"))} observed={cex.get("observed")} expected={cex.get("expected")}' if cex else ''))
+        lines.append(f'  obligation {o["id"]} failed ({o.get("backend")})' + (f' witness={_short(json.dumps(cex.get("input")))} observed={cex.get("observed")} expected={cex.get("expected")}' if cex else ''))
         exit_code = 1
     # thorough tier: the replay grids of the property's operations are ALSO run on the real code (bounded exploration next
     # to the proofs: it cross-checks the executable mirror of the specification against the code the proofs are about)
     if tier == 'thorough' and exit_code == 0 and cfg.get('standin_ops'):
+        grid_known = []
         try:
-            w, cases = witness_mod.standin(pid, cfg['standin_ops'], REPO, scratch)
+            w, cases = witness_mod.standin(pid, cfg['standin_ops'], REPO, scratch, known=known, known_hits=grid_known)
         except Exception as e:
             w, cases = None, 0
             lines.append(f'  (replay grids could not run: {e!r})')
-        report['bounded'].append(dict(id=f'grids[{pid}]', bound=f'replay grids of {len(cfg["standin_ops"])} operations, {cases} cases', status='failed' if w else 'agree',
+        for kw in grid_known:
+            lines.append(f'KNOWN-FINDING: property={pid} grid {kw["op"]} {kw["known"].get("witness", "")} observed={kw.get("observed")} -- {kw["known"].get("what", "")}')
+        report['grid_known'] = [dict(op=kw['op'], input_digest=witness_mod.input_digest(kw['op'], kw['input']), observed=kw.get('observed'), witness=kw['known'].get('witness', '')) for kw in grid_known]
+        report['bounded'].append(dict(id=f'grids[{pid}]', bound=f'replay grids of {len(cfg["standin_ops"])} operations, {cases} cases', status='failed' if w else ('agree apart from recorded open findings' if grid_known else 'agree'),
                                       kind='bounded', fn='replay grids (thorough tier)'))
         if w:
             rp = os.path.join(OUT, 'replays', f'{pid}-grid.json')
             with open(rp, 'w') as f:
                 json.dump(dict(property=pid, obligation=f'replay grid (thorough tier, bounded): {w["op"]}', counterexample=w, replayed=w.get('replayed'), repo=REPO, bounded=True), f, indent=1)
             lines.append(f'VIOLATION property={pid} replay={rp}')
-            lines.append(f'  replay grid (bounded): op {w["op"]} witness={json.dumps(w.get("input"))} observed={w.get("observed")} expected={w.get("expected")}')
+            lines.append(f'  replay grid (bounded): op {w["op"]} witness={_short(json.dumps(w.get("input")))} observed={w.get("observed")} expected={w.get("expected")}')
             standin_v.append(dict(id=f'grid[{pid}]:{w["op"]}', status='failed'))
             exit_code = 1
         else:
-            lines.append(f'  replay grids (bounded, thorough tier): {cases} cases of {len(cfg["standin_ops"])} operations agree with the specification')
+            lines.append(f'  replay grids (bounded, thorough tier): {cases} cases of {len(cfg["standin_ops"])} operations agree with the specification' + (f' apart from {len(grid_known)} recorded open finding(s)' if grid_known else ''))
     write_evidence(pid, tier, seed, cfg, report, violations + standin_v, known_hit)
     return exit_code, lines
 
@@ -256,6 +267,7 @@ def write_evidence(pid, tier, seed, cfg, report, violations, known_hit):
         undecided=report['undecided'],
         known_findings_echoed=[o['id'] for (o, k) in known_hit],
         known_open_findings=[dict(id=o['id'], status=o['status'], witness=k.get('witness', ''), note='recorded open finding: fails on the unchanged tree, echoed as KNOWN-FINDING, NOT counted in obligations/discharged') for (o, k) in known_hit],
+        known_open_grid_findings=[dict(g, note='recorded open finding of the bounded replay grid: this one input still fails on the real code, echoed as KNOWN-FINDING; bounded, no obligation stands for it') for g in report.get('grid_known', [])],
         not_decided=cfg.get('not_decided', ''),
         exhaustive=False,
         explanation=cfg.get('explanation', ''),
